@@ -60,6 +60,12 @@ class Builder:
             return h.Concat(*[self.expr(m, mi, p) for p in e[1]])
         if t == "ref":
             return getattr(m.get(e[1]), e[2])
+        if t == "orphan":           # a Signal that belongs to no Module
+            return h.Signal(name=f"orph{e[1]}", width=e[1])
+        if t == "foreign":          # a Signal owned by another Module of the design
+            return self.mods[e[1]].get(e[2])
+        if t == "foreignref":       # a port of an Instance that lives in another Module
+            return getattr(self.mods[e[1]].get(e[2]), e[3])
         if t == "nc":
             key = (mi, e[1])
             if key not in self.ncs:
@@ -68,7 +74,7 @@ class Builder:
         raise ValueError(t)
 
     def build_module(self, mi, md):
-        m = h.Module(name=md["name"] + self.uniq)
+        m = self.mods[mi]
         for n, w, d in md["ports"]:
             m.add(h.Signal(name=n, width=w, vis=h.signal.Visibility.PORT, direction=DIRS[d]))
         for n, w in md["sigs"]:
@@ -85,8 +91,11 @@ class Builder:
         return m
 
     def build(self):
+        # all Module objects first, so that (faulty) designs can instantiate later modules or themselves
+        for md in self.d["mods"]:
+            self.mods.append(h.Module(name=md["name"] + self.uniq) if md["name"] is not None else h.Module())
         for mi, md in enumerate(self.d["mods"]):
-            self.mods.append(self.build_module(mi, md))
+            self.build_module(mi, md)
         return self.mods[self.d["top"]]
 
 
